@@ -218,7 +218,12 @@ func (ba BaseAuction) Validate() error {
 	if err := sdk.ValidateDenom(ba.PayingCoinDenom); err != nil {
 		return sdkerrors.Wrapf(errors.ErrInvalidRequest, "invalid paying coin denom: %v", err)
 	}
-	if err := ValidateVestingSchedules(ba.VestingSchedules, ba.EndTimes[len(ba.EndTimes)-1]); err != nil {
+	// The vesting schedules were agreed against the first end time; an extended round
+	// may move the last end time past a release time.
+	if len(ba.EndTimes) == 0 {
+		return sdkerrors.Wrapf(errors.ErrInvalidRequest, "end times must not be empty")
+	}
+	if err := ValidateVestingSchedules(ba.VestingSchedules, ba.EndTimes[0]); err != nil {
 		return err
 	}
 	return nil
